@@ -374,3 +374,15 @@ Example session_example :
   let '(rs, buf', _) := session 10 [] e in
   lines_of rs = [[71;49;32;88;10]; [71;50;10]; [77;53]] /\ last rs REmpty = REof /\ wf e.
 Proof. vm_compute. repeat split; repeat constructor. Qed.
+
+(* two fragmentations of one stream give the same lines *)
+Lemma session_fragmentation_independent k1 k2 e1 e2 : wf e1 -> wf e2 ->
+  data_of (reads e1) = data_of (reads e2) ->
+  match session k1 [] e1, session k2 [] e2 with
+  | (rs1, _, _), (rs2, _, _) => last rs1 REmpty = REof -> last rs2 REmpty = REof -> lines_of rs1 = lines_of rs2
+  end.
+Proof.
+  intros H1 H2 Hd. pose proof (session_cut k1 [] e1 BufInv_nil H1) as C1. pose proof (session_cut k2 [] e2 BufInv_nil H2) as C2.
+  destruct (session k1 [] e1) as [[rs1 b1] e1']. destruct (session k2 [] e2) as [[rs2 b2] e2'].
+  intros L1 L2. rewrite (C1 L1), (C2 L2), Hd. reflexivity.
+Qed.
